@@ -13,8 +13,8 @@ import (
 
 func init() {
 	register(&Prop{
-		ID:    "C02",
-		Title: "Concurrent writes are atomic: linearizable outcomes, no lost updates",
+		ID:          "C02",
+		Title:       "Concurrent writes are atomic: linearizable outcomes, no lost updates",
 		Explanation: "Decides the structural shape of the optimistic-concurrency protocol: R02.1 GetAndUpdate reads under mu, re-reads and compares with proto.Equal inside the same exclusive region as save (or holds the lock exclusively throughout), save receives change's result and is guarded by change's nil error; R02.2 every GetFn passed to GetAndUpdate reads a mutex-guarded field of the store on every path to a successful return (so the re-validation compares with the store, not with itself); R02.3 Collection.Delete deletes and publishes under the exclusive lock, guarded by a pointer-identity comparison between the value reloaded in that region and the very value the preconditions were evaluated on, in a bounded retry loop; R02.4 guarded-field discipline for Value/Collection; R02.5 preconditions in the change function bind to its `old` parameter and GetAndUpdate passes the first read as `old`. Does NOT decide linearizability of histories, schedules, fairness of the retry loop or ABA.",
 		Assumptions: []string{"proto.Equal is value equality of messages and false for (nil, non-nil)", "proto.Clone returns a deep copy", "locks identified by access path"},
 		Run:         runC02,
@@ -109,112 +109,138 @@ func r021(c *an.Ctx) {
 		c.Unk(rule, name+"|signature", fn.Pos(), "GetAndUpdate no longer has (mutex, GetFn, ChangeFn, SaveFn) parameters")
 		return
 	}
-	li := an.Locks(fn, nil)
 	lock := mu.Name()
-	gets, changes, saves := callsOfParam(fn, get), callsOfParam(fn, change), callsOfParam(fn, save)
+	// the steps may sit in helpers GetAndUpdate hands its parameters to (readLocked(mu, get)): they are followed there
+	gets, changes, saves := deepCallsOfParam(fn, get), deepCallsOfParam(fn, change), deepCallsOfParam(fn, save)
 	if len(gets) == 0 || len(changes) == 0 || len(saves) == 0 {
 		c.Unk(rule, name+"|calls", fn.Pos(), fmt.Sprintf("get/change/save are invoked %d/%d/%d times; expected at least once each", len(gets), len(changes), len(saves)))
 		return
 	}
+	modeName := func(m an.LockMode) string {
+		switch {
+		case m >= an.WLock:
+			return "mu held exclusively"
+		case m >= an.RLock:
+			return "mu held shared"
+		}
+		return "mu not held"
+	}
 	// every get holds the lock
 	for i, g := range gets {
-		c.Check(li.At(g)[lock] >= an.RLock, rule, fmt.Sprintf("%s|get#%d under lock", name, i+1), g.Pos(),
-			"get() runs with "+li.At(g).String(), "get() runs with lock set "+li.At(g).String()+": the read of the store is not protected by mu")
+		m := g.heldAt(fn, lock)
+		c.Check(m >= an.RLock, rule, fmt.Sprintf("%s|get#%d under lock", name, i+1), g.call.Pos(),
+			"get() runs with "+modeName(m), "get() runs with "+modeName(m)+": the read of the store is not protected by mu")
 	}
 	for i, s := range saves {
 		cons := fmt.Sprintf("%s|save#%d", name, i+1)
 		// (a) exclusive lock
-		c.Check(li.At(s)[lock] >= an.WLock, rule, cons+" under exclusive lock", s.Pos(),
-			"save() runs with "+li.At(s).String(), "save() runs with lock set "+li.At(s).String()+": the write is not exclusive")
+		m := s.heldAt(fn, lock)
+		c.Check(m >= an.WLock, rule, cons+" under exclusive lock", s.call.Pos(),
+			"save() runs with "+modeName(m), "save() runs with "+modeName(m)+": the write is not exclusive")
 		// (b) save receives change's result, guarded by change's nil error
-		var ch *ssa.Call
-		for _, cc := range changes {
-			if valueIsResult(s.Call.Args[0], cc, 0) {
-				ch = cc
+		var ch *deepSite
+		for k := range changes {
+			if deepIsResult(s.call.Call.Args[0], s.chain, changes[k], 0) {
+				ch = &changes[k]
 			}
 		}
 		if ch == nil {
-			c.Bad(rule, cons+" saves change result", s.Pos(), "the message passed to save() is not (on every path) the result of change(): a value other than the computed one is stored")
+			c.Bad(rule, cons+" saves change result", s.call.Pos(), "the message passed to save() is not (on every path) the result of change(): a value other than the computed one is stored")
 			continue
 		}
-		c.Ok(rule, cons+" saves change result", s.Pos(), "save(arg) is result 0 of change()")
-		c.Check(an.GuardedByNilResult(s, ch, 1), rule, cons+" after change succeeded", s.Pos(),
+		c.Ok(rule, cons+" saves change result", s.call.Pos(), "save(arg) is result 0 of change()")
+		c.Check(deepGuardedByNil(s, *ch, 1), rule, cons+" after change succeeded", s.call.Pos(),
 			"save() only reachable when change() returned a nil error", "save() is reachable although change() returned an error: a failed write takes effect")
 		// change receives the first read as old
-		var first *ssa.Call
-		for _, g := range gets {
-			if valueIsResult(ch.Call.Args[0], g, 0) {
-				first = g
+		var first *deepSite
+		for k := range gets {
+			if deepIsResult(ch.call.Call.Args[0], ch.chain, gets[k], 0) {
+				first = &gets[k]
 			}
 		}
 		if first == nil {
-			c.Bad(rule, cons+" change sees the validated read", ch.Pos(), "the `old` argument of change() is not the result of a get() call")
+			c.Bad(rule, cons+" change sees the validated read", ch.call.Pos(), "the `old` argument of change() is not the result of a get() call")
 			continue
 		}
-		c.Check(an.GuardedByNilResult(ch, first, 1), rule, cons+" change after successful read", ch.Pos(),
+		c.Check(deepGuardedByNil(*ch, *first, 1), rule, cons+" change after successful read", ch.call.Pos(),
 			"change() only runs when the first get() succeeded", "change() runs although get() failed")
 		// (c) protocol: pessimistic or optimistic
-		if first.Block().Dominates(s.Block()) && an.HeldContinuously(li, lock, an.WLock, first, s) {
-			c.Ok(rule, cons+" validated", s.Pos(), "pessimistic variant: mu is held exclusively from the read to the save")
-			continue
+		if first.fn() == s.fn() && len(first.chain) == len(s.chain) && first.call.Block().Dominates(s.call.Block()) {
+			li, ln := siteLocks(fn, lock, s.chain)
+			if ln != "" && an.HeldContinuously(li, ln, an.WLock, first.call, s.call) {
+				c.Ok(rule, cons+" validated", s.call.Pos(), "pessimistic variant: mu is held exclusively from the read to the save")
+				continue
+			}
 		}
 		ok := false
 		why := "no re-validation found: save() is not guarded by proto.Equal(first read, second read) with the second read in the same exclusive region"
-		for _, e := range an.GuardingEdges(s) {
-			eq, isCall := e.If.Cond.(*ssa.Call)
-			neg := false
-			if u, isU := e.If.Cond.(*ssa.UnOp); isU && u.Op == token.NOT {
-				eq, isCall = u.X.(*ssa.Call)
-				neg = true
-			}
-			if !isCall || an.CalleeName(eq) != "google.golang.org/protobuf/proto.Equal" {
+		// the test is looked for in the function that saves and in the functions that call it
+		for lvl := len(s.chain); lvl >= 0 && !ok; lvl-- {
+			at := s.at(lvl)
+			chain := s.chain[:lvl]
+			if lvl < len(s.chain) && !s.lockFreeBelow(lvl) {
+				// the helper below takes or releases locks itself: a test made out here is not in the region of save()
 				continue
 			}
-			if e.Branch == neg {
-				continue // save is on the not-equal side
-			}
-			a, b := eq.Call.Args[0], eq.Call.Args[1]
-			var second *ssa.Call
-			for _, g := range gets {
-				if g == first {
-					continue
-				}
-				if (valueIsResult(a, first, 0) && valueIsResult(b, g, 0)) || (valueIsResult(b, first, 0) && valueIsResult(a, g, 0)) {
-					second = g
-				}
-			}
-			if second == nil {
-				why = "save() is guarded by proto.Equal, but its operands are not (the first read passed to change, a later re-read): the re-validation compares the wrong values"
-				continue
-			}
-			if !an.Dominates(second, s) {
-				why = "the re-read does not dominate save()"
-				continue
-			}
-			if !an.HeldContinuously(li, lock, an.WLock, second, s) {
-				why = "mu is not held exclusively all the way from the re-read to save(): another writer can slip in between validation and save"
-				continue
-			}
-			ok = true
-			c.Ok(rule, cons+" validated", s.Pos(), "optimistic variant: re-read and proto.Equal under the exclusive lock guard save()")
-			// mismatch path returns Aborted
-			other := an.CondEdge{If: e.If, Branch: !e.Branch}
-			code := int64(-1)
-			for _, r := range an.Returns(fn) {
-				if !an.EdgeGuards(other, r) {
-					continue
-				}
-				for _, v := range an.ValuesAt(r.Results[len(r.Results)-1]) {
-					if cd, isSt := an.StatusCode(v); isSt {
-						code = cd
+			li, ln := siteLocks(fn, lock, chain)
+			for _, eg := range equalGuardsOf(at) {
+				var second *deepSite
+				for k := range gets {
+					g := &gets[k]
+					if g.call == first.call {
+						continue
+					}
+					if (deepIsResult(eg.a, chain, *first, 0) && deepIsResult(eg.b, chain, *g, 0)) || (deepIsResult(eg.b, chain, *first, 0) && deepIsResult(eg.a, chain, *g, 0)) {
+						second = g
 					}
 				}
+				if second == nil {
+					why = "save() is guarded by proto.Equal, but its operands are not (the first read passed to change, a later re-read): the re-validation compares the wrong values"
+					continue
+				}
+				if second.fn() != at.Parent() || !an.Dominates(second.call, at) {
+					why = "the re-read does not dominate save()"
+					continue
+				}
+				if ln == "" || !an.HeldContinuously(li, ln, an.WLock, second.call, at) {
+					why = "mu is not held exclusively all the way from the re-read to save(): another writer can slip in between validation and save"
+					continue
+				}
+				ok = true
+				c.Ok(rule, cons+" validated", s.call.Pos(), "optimistic variant: re-read and proto.Equal under the exclusive lock guard save()")
+				// mismatch path returns Aborted
+				other := an.CondEdge{If: eg.edge.If, Branch: !eg.edge.Branch}
+				code := int64(-1)
+				deep := errorReturnsDeep(fn)
+				for _, r := range an.Returns(at.Parent()) {
+					if !an.EdgeGuards(other, r) || len(r.Results) == 0 {
+						continue
+					}
+					if at.Parent() != fn {
+						// the helper's error has to come out of GetAndUpdate
+						handed := false
+						for _, d := range deep {
+							if d == r {
+								handed = true
+							}
+						}
+						if !handed {
+							continue
+						}
+					}
+					for _, v := range an.ValuesAt(r.Results[len(r.Results)-1]) {
+						if cd, isSt := an.StatusCode(v); isSt {
+							code = cd
+						}
+					}
+				}
+				c.Check(code == an.CodeAborted, rule, cons+" mismatch is Aborted", eg.edge.If.Pos(),
+					"the mismatch path returns codes.Aborted", fmt.Sprintf("the mismatch path returns status code %d, expected Aborted (10)", code))
+				break
 			}
-			c.Check(code == an.CodeAborted, rule, cons+" mismatch is Aborted", e.If.Pos(),
-				"the mismatch path returns codes.Aborted", fmt.Sprintf("the mismatch path returns status code %d, expected Aborted (10)", code))
 		}
 		if !ok {
-			c.Bad(rule, cons+" validated", s.Pos(), why)
+			c.Bad(rule, cons+" validated", s.call.Pos(), why)
 		}
 	}
 }
